@@ -65,6 +65,12 @@ func Sleep(d Duration) {
 		time.Sleep(d)
 		return
 	}
+	if d <= 0 {
+		// like the real one: returns at once (timers otherwise fire only when nothing else can run, which would make a
+		// zero sleep wait for the whole system to go quiet)
+		vs.Yield()
+		return
+	}
 	x := t.Exec()
 	fired := false
 	x.AddTimer(d, func() { fired = true })
